@@ -167,6 +167,11 @@ func (a *AMF) down(ue int64, name string, tag string, pdu ngapType.NGAPPDU, nasN
 	}
 	b, err := per.Marshal(pdu, pduTag)
 	if err != nil {
+		if _, isC := err.(*per.ConstraintError); isC {
+			// the AMF's choice is legal per TS 38.413 but the schema the library declares (ngapType tags) excludes it
+			a.fail("schema-excludes-amf-choice", "the declared schema cannot express a value a conformant AMF may choose in %s: %v", name, err)
+			return
+		}
 		a.fail("refamf-internal", "reference encoder failed on %s: %v", name, err)
 		return
 	}
@@ -177,6 +182,16 @@ func (a *AMF) down(ue int64, name string, tag string, pdu ngapType.NGAPPDU, nasN
 		if a.Fault.Kind == "close" {
 			ev.Note = "FAULT: connection closed instead of sending this message"
 			a.Events = append(a.Events, ev)
+			a.Closed = true
+			a.closeConn()
+			return
+		}
+		if a.Fault.Kind == "close-after" {
+			ev.Note = "FAULT: connection closed right after sending this message"
+			a.Events = append(a.Events, ev)
+			a.DLTags = append(a.DLTags, tag)
+			a.DLSent++
+			a.send(b)
 			a.Closed = true
 			a.closeConn()
 			return
